@@ -369,6 +369,61 @@ func (g *Gen) Obj(d int) string {
 	return g.alt(d, leaves, nodes)
 }
 
+// ObjN returns an object with several members whose values are computed
+// (MapOrd only: the auto-yield worker, where the iteration order of Go maps
+// is fixed per run by the simulator).
+func (g *Gen) ObjN(d int) string {
+	leaves := lit(`{"a": name.$uppercase(), "b": n.$string(), "c": nest.c.$pad(8, "-")}`, `$`, `$$`, `items[0]`, `items[1]`,
+		`{"u": name, "v": txt.$trim(), "w": id}`, `$merge([one, nest, {"n": n}])`, `items{p: q}`, `items{p: $string(q)}`,
+		`nums{$string($ % 2): $sum($)}`, `s{$substring($, 0, 1): $uppercase($)}`, `groups[0]`, `{"x": nums[0], "y": nums[1], "z": s[0]}`)
+	nodes := []func(d int) string{
+		func(d int) string { return `{"a": ` + g.Str(d) + `, "b": ` + g.Str(d) + `}` },
+		func(d int) string { return `{"a": ` + g.Str(d) + `, "b": ` + g.Num(d) + `, "c": ` + g.Bool(d) + `}` },
+		func(d int) string { return `{"p": ` + g.ArrS(d) + `, "q": ` + g.ArrN(d) + `}` },
+		func(d int) string { return `$merge([` + g.ObjN(d) + `, {"z": ` + g.Num(d) + `, "y": ` + g.Str(d) + `}])` },
+		func(d int) string { return `$sift(` + g.ObjN(d) + `, function($v,$k){$k != "b"})` },
+		func(d int) string { return `(` + g.ObjN(d) + ` ~> |$|{"y": ` + g.Str(d) + `, "x": ` + g.Num(d) + `}|)` },
+		func(d int) string { return `{"in": ` + g.ObjN(d) + `, "s": ` + g.Str(d) + `}` },
+	}
+	return g.alt(d, leaves, nodes)
+}
+
+// MapOrd returns a program whose evaluation order or result order follows
+// the iteration order of a Go map with several entries.
+func (g *Gen) MapOrd(d int) string {
+	o := g.ObjN(d)
+	switch g.R.Intn(14) {
+	case 0:
+		return `$keys(` + o + `)`
+	case 1:
+		return o + `.*`
+	case 2:
+		return `$each(` + o + `, function($v,$k){$k & "=" & $string($v)})`
+	case 3:
+		return `$spread(` + o + `)`
+	case 4:
+		return `$string(` + o + `)`
+	case 5:
+		return `$join($keys(` + o + `), ",")`
+	case 6:
+		return `$each(` + o + `, function($v,$k){$k.$uppercase() & $v.$string().$length()})`
+	case 7:
+		return `(` + o + `).**`
+	case 8:
+		return `$count(` + o + `.**)`
+	case 9:
+		return `$map($keys(` + o + `), function($k){$k.$pad(4, "_")})`
+	case 10:
+		return `$spread(` + o + `).$keys()`
+	case 11:
+		return `$merge($spread(` + o + `)).*`
+	case 12:
+		return `[` + o + `, ` + g.ObjN(d) + `].$keys()[0]`
+	default:
+		return o
+	}
+}
+
 // Transform returns an object/array produced by the transform operator.
 func (g *Gen) Transform(d int) string {
 	leaves := lit(
@@ -588,6 +643,8 @@ func (g *Gen) Program(family string, depth int) Program {
 			text = g.Fail(depth)
 		case "outside":
 			text = g.TransformOutside()
+		case "mapord":
+			text = g.MapOrd(depth)
 		default:
 			panic("unknown family " + family)
 		}
